@@ -8,6 +8,7 @@ reachable store in C01); the theorems below take that uniqueness as the explicit
 import BHS.Model.Query
 import BHS.Spec.BestChain
 import BHS.Gen.Verdict
+import BHS.Props.C01
 
 namespace BHS.Props.C02
 open BHS BHS.Chain
@@ -260,5 +261,59 @@ example : ExcessOk 6 := by unfold ExcessOk; decide
 example : verify exStore 6 [(902, 1), (901, 1), (999, 3), (999, 9)] =
     some [(902, 1, .confirmed, some 102), (901, 1, .invalid, none), (999, 3, .unable, none), (999, 9, .invalid, none)] := by decide
 example : aggregate [.confirmed, .unable, .confirmed] = .unable := by decide
+
+/-! ### for every store reachable by ingestion
+The theorems above restated for `run cfg [g] hist` — the store after ANY ingestion history (reorganisations, stale
+blocks, orphans, duplicates, forbidden and zero-work headers) from a root row `g`; the chain invariant comes from
+`C01_canonical`, so no `LcUnique` / `Inv` hypothesis is left. -/
+section Reachable
+open BHS.Props.C01 (IsRoot HashAvoids C01_canonical)
+
+/-- at most one longest-chain row per height in every reachable store -/
+theorem C02_lcUnique_reachable (cfg : Cfg H) (g : Row H) (hg : IsRoot g) (hz : HashAvoids cfg g.prev)
+    (hist : List (Src H)) : LcUnique (run cfg [g] hist) :=
+  lcUnique_of_inv cfg _ (C01_canonical cfg g hg hz hist).1
+
+theorem C02_confirmed_reachable (cfg : Cfg H) (g : Row H) (hg : IsRoot g) (hz : HashAvoids cfg g.prev)
+    (hist : List (Src H)) (e : Int) (tipH : Nat) (root : H) (h : Int) (hash : H) :
+    verifyItem (run cfg [g] hist) e tipH root h = (.confirmed, some hash) ↔
+      ∃ r, IsLcAt (run cfg [g] hist) r h ∧ r.merkle = root ∧ r.hash = hash :=
+  C02_confirmed _ e tipH root h (C02_lcUnique_reachable cfg g hg hz hist) hash
+
+theorem C02_unable_reachable (cfg : Cfg H) (g : Row H) (hist : List (Src H)) (e : Int) (tipH : Nat) (root : H)
+    (h : Int) (he : ExcessOk e) :
+    (verifyItem (run cfg [g] hist) e tipH root h).1 = .unable ↔
+      (∀ r, IsLcAt (run cfg [g] hist) r h → r.merkle ≠ root) ∧ h > (tipH : Int) ∧ h - (tipH : Int) ≤ e :=
+  C02_unable _ e tipH root h he
+
+theorem C02_invalid_reachable (cfg : Cfg H) (g : Row H) (hist : List (Src H)) (e : Int) (tipH : Nat) (root : H)
+    (h : Int) (he : ExcessOk e) :
+    (verifyItem (run cfg [g] hist) e tipH root h).1 = .invalid ↔
+      (∀ r, IsLcAt (run cfg [g] hist) r h → r.merkle ≠ root) ∧ ¬ (h > (tipH : Int) ∧ h - (tipH : Int) ≤ e) :=
+  C02_invalid _ e tipH root h he
+
+/-- verification of any request list is answered in every reachable store -/
+theorem C02_answered_reachable (cfg : Cfg H) (g : Row H) (hg : IsRoot g) (hz : HashAvoids cfg g.prev)
+    (hist : List (Src H)) (e : Int) (req : List (H × Int)) : ∃ res, verify (run cfg [g] hist) e req = some res :=
+  C02_answered cfg _ e req (C01_canonical cfg g hg hz hist).1
+
+/-- after any history (in particular after a reorganisation) the root of every CURRENT longest-chain row is CONFIRMED
+    at that row's height, with that row's hash -/
+theorem C02_tracks_reorg_on_reachable (cfg : Cfg H) (g : Row H) (hg : IsRoot g) (hz : HashAvoids cfg g.prev)
+    (hist : List (Src H)) (e : Int) (tipH : Nat) (r : Row H) (hon : r ∈ run cfg [g] hist) (hlc : r.st = .lc) :
+    verifyItem (run cfg [g] hist) e tipH r.merkle r.height = (.confirmed, some r.hash) :=
+  C02_tracks_reorg_on _ e tipH r (C02_lcUnique_reachable cfg g hg hz hist) hon hlc
+
+/-- non-vacuity on the history of C01 (fork, tie, reorganisation, orphan): the root of the block that the reorganisation
+    put on the longest chain is CONFIRMED, the one it left behind is INVALID, a height above the tip is UNABLE -/
+example : IsRoot C01.exRoot ∧ HashAvoids C01.exCfg C01.exRoot.prev ∧ ExcessOk 6 ∧
+    (∃ r, IsLcAt (run C01.exCfg [C01.exRoot] C01.exHist) r 1 ∧ r.merkle = 2 ∧ r.hash = 3) ∧
+    verify (run C01.exCfg [C01.exRoot] C01.exHist) 6 [(2, 1), (1, 1), (9, 5), (9, 9)] =
+      some [(2, 1, .confirmed, some 3), (1, 1, .invalid, none), (9, 5, .unable, none), (9, 9, .invalid, none)] :=
+  ⟨by decide, C01.exAvoids, by unfold ExcessOk; decide,
+    (C02_confirmed_reachable C01.exCfg C01.exRoot (by decide) C01.exAvoids C01.exHist 6 2 2 1 3).mp (by decide),
+    by decide⟩
+
+end Reachable
 
 end BHS.Props.C02
